@@ -91,7 +91,9 @@ class Compiler:
             if not isinstance(self.name[depth], psr.Pattern):
                 return 0, [], ''
             tag = int(self.name[depth].id)
-            if tag in prev_tags:
+            if tag > 0 and tag in prev_tags:
+                # A named pattern that is already bound only needs the equality check. A temporary pattern (negative number)
+                # is independent at every occurrence - e.g. a rule referenced twice in one name - and keeps its constraints.
                 return tag, [], str(tag) + ':'
             cons_set = []
             cons_set_str = str(tag) + ':'
